@@ -147,6 +147,17 @@ Proof.
 Qed.
 Print Assumptions C32_paint_tile.
 
+(* the last referenced point: a PAINT whose (STEP-resolved) seed lies inside the viewport makes that seed the
+   last point - also when it paints nothing because the seed is a border pixel -, a seed outside the viewport
+   leaves it; the pixels are those of `paint` at the resolved seed.  A following PAINT STEP starts from there. *)
+Theorem C32_last_point : forall text_mode num_attr fg v g st g',
+  paint_lp text_mode num_attr fg v g st = Ok g' ->
+  let seed := stmt_seed (snd g) st in
+  paint text_mode num_attr fg v (fst g) (fst seed) (snd seed) (s_c st) (s_b st) = Ok (fst g') /\
+  snd g' = (if in_view v (fst seed) (snd seed) then seed else snd g).
+Proof. exact paint_lp_spec. Qed.
+Print Assumptions C32_last_point.
+
 (* non-vacuity: a 5x3 viewport inside a 7x5 bitmap, a wall of attribute 3, seed (0,0), fill 2.
    The hypotheses of the theorems hold (covers; no region cell has the fill attribute), the region is not
    empty, PAINT changes the picture, and the cell behind the diagonal wall stays. *)
@@ -186,3 +197,9 @@ Proof.
     assert (Hc : y mod 2 = 0 \/ y mod 2 = 1) by lia. destruct Hc as [->| ->]; reflexivity.
   - vm_compute. reflexivity.
 Qed.
+
+Example C32_last_point_border_seed :
+  (* seed (2,0) is a border pixel of the example picture: nothing painted, last point moves there *)
+  paint_lp false 4 3 C32_ex_v (C32_ex_m, (4, 2)) (mkStmt false 2 0 (Some 2) (Some 3)) = Ok (C32_ex_m, (2, 0)).
+Proof. vm_compute. reflexivity. Qed.
+
